@@ -56,6 +56,8 @@ type OneShot struct {
 	Name    string  `json:"name"`
 	Ctx     Ctx     `json:"ctx"`
 	Variant int     `json:"variant"`
+	// TZ: time zone of the fresh process that answers the query (pristine only); "" = as inherited
+	TZ string `json:"tz,omitempty"`
 }
 
 type OneShotRes struct {
@@ -184,6 +186,9 @@ func pristine(qr OneShot) (OneShotRes, error) {
 	pristineMu.Unlock()
 	cmd := exec.Command(os.Args[0])
 	cmd.Env = append(os.Environ(), "VERIF_ONESHOT=1", "GOMAXPROCS=2")
+	if qr.TZ != "" {
+		cmd.Env = append(cmd.Env, "TZ="+qr.TZ)
+	}
 	cmd.Stdin = bytes.NewReader(canonSpec(qr))
 	var out, errb bytes.Buffer
 	cmd.Stdout = &out
